@@ -7,6 +7,9 @@
      obs / head          → `Core.obs` / `Core.obsHead` with the sketch ids sorted (the harness prints the
                            real sketch track sorted; after the repaired `finalize_indexes` the track's
                            insertion order need not be ascending)
+     reopen / crash      → `drvStep`, then the footer catches up with the trace input when the WAL replay
+                           re-persisted a non-empty sketch track (recover_wal: `persist_sketch_track`
+                           moves `footer_offset`; idempotent once Core.lean's `recoverWal` does it itself)
    every other request goes to `Mv.Core.drvStep` unchanged. -/
 import MvModel.CoreDrv
 import MvModel.Bulk
@@ -26,6 +29,13 @@ def c40Step (m : Mem) (ws : List String) : Mem × String :=
   | ["lex"] => (m, showNats (sortBy natLe m.lexDocs))
   | ["obs"] => (m, obs { m with sketch := sortBy natLe m.sketch })
   | ["head"] => (m, obsHead { m with sketch := sortBy natLe m.sketch })
+  | "reopen" :: rest =>
+    let r := drvStep m ws
+    let replayed := !(m.dropHandle (getN (kvs rest) "ftd")).pending.isEmpty
+    (if replayed && !r.1.sketch.isEmpty then { r.1 with footer := max r.1.footer (getN (kvs rest) "fto") } else r.1, r.2)
+  | "crash" :: rest =>
+    let r := drvStep m ws
+    (if !m.pending.isEmpty && !r.1.sketch.isEmpty then { r.1 with footer := max r.1.footer (getN (kvs rest) "ft") } else r.1, r.2)
   | _ => drvStep m ws
 
 def main : IO Unit := Mv.runDriver Mem.create c40Step
